@@ -20,7 +20,8 @@ RULE = (
     "mutations (delete/insert/replace/swap/duplicate/truncate, 1-4 edits) of corpus programs, corner-catalogue programs and "
     "generated programs; (c) raw character noise (incl. characters that Python's str predicates take for digits, blanks or letters) and '#' lines built "
     "from directive heads x line-number fields x file-name fields with hostile pieces (non-ASCII digits, 4400-digit numbers, "
-    "unterminated strings); (d) construct splicing: whole constructs (token ranges of declarations, "
+    "unterminated strings), and every string of length <= 4 (quick) / 5 (thorough) over the literal alphabets of C10 as an "
+    "initializer and as a subscript; (d) construct splicing: whole constructs (token ranges of declarations, "
     "statements, expressions, declarators, type names recorded by the model renderer) of one generated program inserted into or "
     "substituted for constructs of another; (e) coverage-guided campaigns (atheris/libFuzzer on the instrumented pycparser package; "
     "bytes decoded into token sequences over a 150-entry vocabulary or into raw text), half from an empty corpus and half from "
@@ -263,6 +264,30 @@ NUMBER_BITS = ["0", "1", "9", "07", "10", "123", "0x1", "1u", "1L", "1ull", "1.5
 FILE_BITS = ['"g.c"', '"a b.c"', '"d\\\\e.c"', '"q\\"r.c"', '""', '"g.c', 'g.c"', "'g.c'", '<g.c>', 'L"g.c"', '"g.c" 1', '"g.c" 1 3 4', '"g.c" x', '"g.c" "h.c"', '"' + "f" * 3000 + '.c"', '"\xb2.c"']
 
 
+def literal_shard(arg):
+    """Every string of length <= n over the literal alphabets of C10 (digits,
+    suffix letters, '.', exponent and sign characters, quotes, backslash, prefix
+    letters), as an initializer and as an array bound: whatever the lexer makes
+    of it, parse() must return or raise ParseError."""
+    from . import c10
+
+    alph_name, n, first = arg
+    alph = {"int": c10.ALPH_INT, "flt": c10.ALPH_FLT, "chr": c10.ALPH_CHR}[alph_name]
+    st = Stats()
+    for k in range(0, n):
+        for rest in itertools.product(alph, repeat=k):
+            s = first + "".join(rest)
+            if "\n" in s:
+                continue
+            for tmpl in ("int x = %s ;", "void f(void) { g(a[%s], 1); }"):
+                src = tmpl % s
+                if _check_text(src, 4, 3, st, "noise", (src, "f.c")):
+                    st.nontrivial += 1
+            if len(st.failures) > 50:
+                return st
+    return st
+
+
 def directive_shard(arg):
     """'#' lines of every shape: directive heads x line-number fields x file-name
     fields built from ordinary and hostile pieces (characters that Python's str
@@ -383,6 +408,11 @@ def run(ctx):
     nnoise = ctx.pick(1500, 25000)
     ctx.map(noise_shard, [(s, nnoise) for s in ctx.shard_seeds(16, 2)])
     ctx.map(directive_shard, [(s, ctx.pick(600, 12000)) for s in ctx.shard_seeds(16, 9)])
+    from . import c10
+
+    nlit = ctx.pick(4, 5)
+    ctx.map(literal_shard, [(name, nlit, f) for name, alph in (("int", c10.ALPH_INT), ("flt", c10.ALPH_FLT), ("chr", c10.ALPH_CHR)) for f in alph])
+    bounds["literal_strings"] = "length<=%d over the three literal alphabets of C10 x 2 positions" % nlit
     cj = os.path.join(ctx.here, "corpus", "fuzz_c06.json")
     if os.path.exists(cj):
         import json
